@@ -35,6 +35,9 @@ RemoveAtIdx(s, i) == SubSeq(s, 1, i - 1) \o SubSeq(s, i + 1, Len(s))
 \* ---- C14 ------------------------------------------------------------------
 AddLocalRet(E, f)    == IF f = 1 THEN E.p1 + Len(E.l1) ELSE E.p2 + Len(E.l2)
 AddLocal(E, f, ty)   == IF f = 1 THEN [E EXCEPT !.l1 = Append(@, TyStr(ty))] ELSE [E EXCEPT !.l2 = Append(@, TyStr(ty))]
+\* FunctionModifier::add_locals(&[ty, ty, other]): three fresh locals in request order (the harness reports the first index)
+OtherTy(ty) == IF ty = "i64" THEN "f32" ELSE "i64"
+AddLocals3(E, f, ty) == AddLocal(AddLocal(AddLocal(E, f, ty), f, ty), f, OtherTy(ty))
 \* ---- C12 ------------------------------------------------------------------
 BuiltFunc(op) == [params |-> TyStrs(op.params), results |-> TyStrs(op.results), locals |-> TyStrs(op.locals),
                   body |-> BodyStrs(op.body), name |-> op.name]
